@@ -44,7 +44,9 @@ def enc_class(enc):
             "int_99": "numeric_classes_renamed&numeric_sentinel",
             "int_m1": "numeric_sentinel", "num_m999": "numeric_sentinel",
             "obj_none": "string_labels&sentinel=None",
-            "str_zz": "string_labels", "str_empty": "string_labels"}[enc]
+            "str_zz": "string_labels", "str_empty": "string_labels",
+            "str_long": "string_labels",
+            "objnum_none": "object_numeric_labels&sentinel=None"}[enc]
 
 
 @st.composite
